@@ -230,6 +230,32 @@ func (it *Interp) bigModel(fr *Frame, x *ssa.Call, key string, args []Value) (Va
 			it.bigVals[z.C] = ModExp(vx, vy, vm)
 			return z, true
 		}
+	case "math/big.Int.Cmp":
+		vx, _, ok1 := it.bigVal(args[0])
+		vy, _, ok2 := it.bigVal(args[1])
+		if ok1 && ok2 {
+			return termValue(LT(vy, vx).Sub(LT(vx, vy))), true
+		}
+	case "math/big.Int.Sign":
+		if vx, _, ok := it.bigVal(args[0]); ok {
+			if lo, _ := vx.Bounds(); lo.Sign() >= 0 {
+				return termValue(NZ(vx)), true
+			}
+		}
+	case "math/big.Int.FillBytes":
+		if vx, _, ok := it.bigVal(args[0]); ok {
+			if sv, ok := it.asSlice(args[1]); ok {
+				if l, isC := it.ApplyTerm(sv.Len).IsConst(); isC {
+					n := int(l.Int64())
+					if _, hi := vx.Bounds(); hi.BitLen() <= 8*n {
+						for i := 0; i < n; i++ {
+							it.storeValue(sv.Arr.Kids[sv.Lo+i], termValue(ByteOf(vx, n-1-i)))
+						}
+						return sv, true
+					}
+				}
+			}
+		}
 	case "math/big.Int.Bytes":
 		if v, _, ok := it.bigVal(args[0]); ok {
 			if k, isC := v.IsConst(); isC {
